@@ -1105,16 +1105,16 @@ Lemma s_gen_Inv : Inv s_gen.
 Proof. apply invb_sound. vm_compute. reflexivity. Qed.
 
 (* validators 1 and 2 claim and join *)
-Definition h_setup : list op := [ONewBlock 5; OVotes [(0, true)]; OClaim 1 1 true; OClaim 2 2 true; OEndBlock].
+Definition h_setup : list op := [ONewBlock (5 * NS); OVotes [(0, true)]; OClaim 1 1 true; OClaim 2 2 true; OEndBlock].
 (* a history inside the alphabet that exercises every good operation over six blocks *)
 Definition h_happy : list op :=
   h_setup ++
-  [ONewBlock 5; OVotes [(0, true); (1, true); (2, true)]; OPause 1; OPause 1; OActivate 1; OEndBlock;
-   ONewBlock 5; OVotes [(0, true); (2, true)]; OUnpause 1; OPause 2; OUnpause 2; OEndBlock;
-   ONewBlock 5; OVotes [(0, true); (1, false); (2, true)]; OEndBlock;
-   ONewBlock 5; OVotes [(0, true); (1, false); (2, true)]; OEvidence [(2, 13, 1020)]; OEndBlock;
-   ONewBlock 100; OVotes [(0, true)]; OActivate 1; OUnjail 2; OUpPause [0; 7]; OEndBlock;
-   ONewBlock 5; OVotes [(1, true)]; OActivate 2; OUnpause 0; OClaim 3 3 true; OEndBlock].
+  [ONewBlock (5 * NS); OVotes [(0, true); (1, true); (2, true)]; OPause 1; OPause 1; OActivate 1; OEndBlock;
+   ONewBlock (5 * NS); OVotes [(0, true); (2, true)]; OUnpause 1; OPause 2; OUnpause 2; OEndBlock;
+   ONewBlock (5 * NS); OVotes [(0, true); (1, false); (2, true)]; OEndBlock;
+   ONewBlock (5 * NS); OVotes [(0, true); (1, false); (2, true)]; OEvidence [(2, 13, 1020)]; OEndBlock;
+   ONewBlock (100 * NS); OVotes [(0, true)]; OActivate 1; OUnjail 2; OUpPause [0; 7]; OEndBlock;
+   ONewBlock (5 * NS); OVotes [(1, true)]; OActivate 2; OUnpause 0; OClaim 3 3 true; OEndBlock].
 
 Lemma h_happy_good : goods cfg0 s_gen h_happy.
 Proof. apply goodsb_sound. vm_compute. reflexivity. Qed.
@@ -1127,14 +1127,14 @@ Qed.
 
 (* reachable (by histories inside the alphabet) states used by the refutations *)
 Definition s_three : state := run cfg0 s_gen h_setup.
-Definition s_paused1 : state := run cfg0 s_three [ONewBlock 5; OVotes [(0, true); (1, true); (2, true)]; OPause 1; OEndBlock; ONewBlock 5].
+Definition s_paused1 : state := run cfg0 s_three [ONewBlock (5 * NS); OVotes [(0, true); (1, true); (2, true)]; OPause 1; OEndBlock; ONewBlock (5 * NS)].
 Definition s_inactive1 : state :=
-  run cfg0 s_three [ONewBlock 5; OVotes [(0, true); (1, false); (2, true)]; OEndBlock;
-                    ONewBlock 5; OVotes [(0, true); (1, false); (2, true)]; OEndBlock; ONewBlock 100].
-Definition s_jailed1 : state := run cfg0 s_three [ONewBlock 5; OEvidence [(1, 11, 1008)]; OEndBlock; ONewBlock 5].
+  run cfg0 s_three [ONewBlock (5 * NS); OVotes [(0, true); (1, false); (2, true)]; OEndBlock;
+                    ONewBlock (5 * NS); OVotes [(0, true); (1, false); (2, true)]; OEndBlock; ONewBlock (100 * NS)].
+Definition s_jailed1 : state := run cfg0 s_three [ONewBlock (5 * NS); OEvidence [(1, 11, 1008)]; OEndBlock; ONewBlock (5 * NS)].
 Definition s_only0_active : state :=
-  run cfg0 s_three [ONewBlock 5; OVotes [(0, true); (1, false); (2, false)]; OEndBlock;
-                    ONewBlock 5; OVotes [(0, true); (1, false); (2, false)]; OEndBlock; ONewBlock 5].
+  run cfg0 s_three [ONewBlock (5 * NS); OVotes [(0, true); (1, false); (2, false)]; OEndBlock;
+                    ONewBlock (5 * NS); OVotes [(0, true); (1, false); (2, false)]; OEndBlock; ONewBlock (5 * NS)].
 
 Local Ltac reach h := apply run_preserves_Inv; [first [apply s_gen_Inv | apply run_preserves_Inv; [apply s_gen_Inv|apply goodsb_sound; vm_compute; reflexivity]] | apply goodsb_sound; vm_compute; reflexivity].
 Lemma s_three_Inv : Inv s_three. Proof. unfold s_three. reach h_setup. Qed.
@@ -1180,10 +1180,10 @@ Proof. refute_with cfg0 s_paused1 s_paused1_Inv. vm_compute in Hh. discriminate.
 Lemma activate_then_pause_refuted : ~ C05_statement_for [OActivate 1; OPause 1; OEndBlock].
 Proof. refute_with cfg0 s_inactive1 s_inactive1_Inv. vm_compute in Hh. discriminate. Qed.
 (* a claim with the consensus key of an existing validator *)
-Lemma shared_key_refuted : ~ C05_statement_for [OClaim 3 1 true; OEndBlock; ONewBlock 5; OPause 1; OEndBlock].
+Lemma shared_key_refuted : ~ C05_statement_for [OClaim 3 1 true; OEndBlock; ONewBlock (5 * NS); OPause 1; OEndBlock].
 Proof.
   refute_with cfg0 s_three s_three_Inv.
-  assert (A : active_key (run cfg0 s_three [OClaim 3 1 true; OEndBlock; ONewBlock 5; OPause 1; OEndBlock]) 1).
+  assert (A : active_key (run cfg0 s_three [OClaim 3 1 true; OEndBlock; ONewBlock (5 * NS); OPause 1; OEndBlock]) 1).
   { exists 3. eexists. split; [vm_compute; reflexivity|split; reflexivity]. }
   apply Hk in A. vm_compute in A. intuition discriminate.
 Qed.
@@ -1267,27 +1267,27 @@ Proof.
 Qed.
 (* a jailed validator is released by an unjail proposal only within the window *)
 Theorem unjail_edge : forall cfg s v v' a b, status_at s v' = Some a -> status_at (fst (step cfg s (OUnjail v))) v' = Some b -> a <> b ->
-  v' = v /\ a = SJailed /\ b = SInactive /\ exists jt, lookup v (st_jail s) = Some jt /\ st_time s <= jt + c_unjail_max cfg.
+  v' = v /\ a = SJailed /\ b = SInactive /\ exists jt, lookup v (st_jail s) = Some jt /\ st_time s <= jt + c_unjail_max cfg * NS.
 Proof.
   intros cfg s v v' a b Ha Hb Hn. cbn [step] in *.
   destruct (lookup v (st_vals s)) as [r|] eqn:E; [|cbn in Hb; congruence].
   destruct (status_eqb (v_status r) SJailed) eqn:Ej; cbn [negb] in Hb; [|cbn in Hb; congruence].
   apply status_eqb_eq in Ej.
   destruct (lookup v (st_jail s)) as [jt|] eqn:Et; [|cbn in Hb; congruence].
-  destruct (jt + c_unjail_max cfg <? st_time s) eqn:El; [cbn in Hb; congruence|]. zb.
+  destruct (jt + c_unjail_max cfg * NS <? st_time s) eqn:El; [cbn in Hb; congruence|]. zb.
   cbn [fst] in Hb. change (status_at (add_validator s v (with_status r SInactive)) v' = Some b) in Hb.
   rewrite status_add_validator in Hb. destruct (v' =? v) eqn:Ev; [|congruence]. zb. subst v'.
   unfold status_at in Ha. rewrite E in Ha. cbn in *. inv Ha. inv Hb. repeat split; auto. exists jt. split; auto; lia.
 Qed.
 Theorem unjail_accepted_only_in_window : forall cfg s v,
   snd (step cfg s (OUnjail v)) = ROk ->
-  exists r jt, lookup v (st_vals s) = Some r /\ v_status r = SJailed /\ lookup v (st_jail s) = Some jt /\ st_time s <= jt + c_unjail_max cfg.
+  exists r jt, lookup v (st_vals s) = Some r /\ v_status r = SJailed /\ lookup v (st_jail s) = Some jt /\ st_time s <= jt + c_unjail_max cfg * NS.
 Proof.
   intros cfg s v H. cbn [step] in H.
   destruct (lookup v (st_vals s)) as [r|] eqn:E; [|cbn in H; discriminate].
   destruct (status_eqb (v_status r) SJailed) eqn:Ej; cbn [negb] in H; [|cbn in H; discriminate].
   destruct (lookup v (st_jail s)) as [jt|] eqn:Et; [|cbn in H; discriminate].
-  destruct (jt + c_unjail_max cfg <? st_time s) eqn:El; [cbn in H; discriminate|]. zb.
+  destruct (jt + c_unjail_max cfg * NS <? st_time s) eqn:El; [cbn in H; discriminate|]. zb.
   apply status_eqb_eq in Ej. exists r, jt. repeat split; auto; lia.
 Qed.
 
@@ -1731,10 +1731,10 @@ Qed.
 (* inside the alphabet: rotation of a validator that sits in no queue, export + import with somebody active *)
 Definition h_rotate_genesis : list op :=
   h_setup ++
-  [ONewBlock 5; OVotes [(0, true); (1, true); (2, true)]; ORotate 1 5; OPause 5; OEndBlock;
-   ONewBlock 5; OVotes [(0, true); (2, true)]; OEvidence [(2, 12, 1012)]; OEndBlock;
+  [ONewBlock (5 * NS); OVotes [(0, true); (1, true); (2, true)]; ORotate 1 5; OPause 5; OEndBlock;
+   ONewBlock (5 * NS); OVotes [(0, true); (2, true)]; OEvidence [(2, 12, 1012)]; OEndBlock;
    OGenesis [];
-   ONewBlock 5; OVotes [(0, true)]; OUnpause 5; OClaim 1 7 true; OEndBlock].
+   ONewBlock (5 * NS); OVotes [(0, true)]; OUnpause 5; OClaim 1 7 true; OEndBlock].
 Lemma h_rotate_genesis_good : goods cfg0 s_gen h_rotate_genesis.
 Proof. apply goodsb_sound. vm_compute. reflexivity. Qed.
 Lemma h_rotate_genesis_result :
@@ -1843,7 +1843,7 @@ Qed.
    never "stepped over" 2) *)
 Definition cfg_loose : config := mkCfg 0 4 1 500000000000000000 1 60 600 1000 5.
 Lemma lowered_max_mischance_applies_at_next_miss :
-  let miss := [ONewBlock 5; OVotes [(0, true); (1, false); (2, true)]; OEndBlock] in
+  let miss := [ONewBlock (5 * NS); OVotes [(0, true); (1, false); (2, true)]; OEndBlock] in
   let s3 := run cfg_loose s_three (miss ++ miss ++ miss) in
   status_at s3 1 = Some SActive /\
   status_at (run cfg_loose s3 (OSetProp 1 1 true :: miss)) 1 = Some SInactive /\
